@@ -45,6 +45,9 @@ WAIT_CALLS = ("accept4", "accept", "poll", "ppoll", "select", "pselect6",
               "epoll_wait", "epoll_pwait")
 USER, GROUP = "nobody", "nogroup"
 READY_TIMEOUT = 20.0
+# faults on calls the implementation may legitimately not make: when the call never
+# happens the run is a trivial case, not an inconclusive one
+OPTIONAL = ("chdir",)
 KNOWN_KEY = "C19/no-chdir-after-chroot"
 
 
@@ -99,6 +102,9 @@ def plan(tier: str) -> typing.List[Run]:
                     runs.append(base)
                     for call in expected_calls(base):
                         runs.append(base._replace(fault=call))
+                    if c:
+                        # applies only to a tree that does chdir after chroot (see OPTIONAL)
+                        runs.append(base._replace(fault="chdir"))
             # names that do not exist, with and without the other options
             runs.append(Run(c, True, False, "unknown-user", st, tls))
             runs.append(Run(c, False, True, "unknown-group", st, tls))
@@ -301,6 +307,9 @@ class Env:
         self.my_uid = me["Uid"]
         self.my_gid = me["Gid"]
         self.my_groups = sorted(me.get("Groups", []))
+        # a daemon started by root normally carries root's supplementary groups; give the
+        # server some so that "supplementary groups are cleared" is observable in /proc
+        self.start_groups = sorted(set([0, 4242] + [int(g) for g in self.my_groups]))
         self.my_root = os.readlink("/proc/self/root")
         self.cert = spdriver.CERT
         self.key = spdriver.KEY
@@ -337,7 +346,8 @@ def execute(env: Env, r: Run, tag: str, token: str) -> Obs:
         inject = "%s:error=EPERM:when=1" % r.fault
     sp = spdriver.ServerProcess(over, root=root, servertype=r.servertype, tls=r.tls,
                                 strace_expr=TRACE_EXPR, inject=inject, cwd=env.start_cwd,
-                                workdir=wd, name="srv")
+                                workdir=wd, name="srv",
+                                popen_kwargs={"extra_groups": env.start_groups})
     try:
         sp.start()
         if r.fault is None:
@@ -464,7 +474,8 @@ def judge(env: Env, r: Run, o: Obs, token: str) -> typing.Tuple[
                 why="real/effective/saved/fs uid of the serving process")
         if o.status.get("Gid") != exp_gid:
             add("C19/end-state-gid", expected=exp_gid, observed=o.status.get("Gid"))
-        exp_groups = [] if (r.uid or r.gid) else env.my_groups
+        exp_groups = [] if (r.uid or r.gid) else sorted(
+            (str(g) for g in env.start_groups) if not hasattr(o, "virt") else env.my_groups)
         if sorted(o.status.get("Groups", [])) != exp_groups:
             add("C19/end-state-groups", expected=exp_groups, observed=o.status.get("Groups"))
         # (3) root and working directory
@@ -517,7 +528,10 @@ def judge(env: Env, r: Run, o: Obs, token: str) -> typing.Tuple[
         if not injected:
             # nothing failed, so nothing can be said about abort-on-failure here; the
             # no-fault run of the same combination decides whether the call is missing
-            if not wit:
+            if r.fault in OPTIONAL:
+                if not (o.ready or o.exited is not None):
+                    inc.append("optional fault run %s neither served nor exited" % (r.sig(),))
+            elif not wit:
                 inc.append("fault %s was never triggered in %s (call not made?)" % (r.fault, r.sig()))
             return wit, inc
     if served:
@@ -528,6 +542,172 @@ def judge(env: Env, r: Run, o: Obs, token: str) -> typing.Tuple[
     elif o.exited is None:
         inc.append("fault run %s neither exited nor served within %.0fs" % (r.sig(), READY_TIMEOUT))
     return wit, inc
+
+
+# ---- in-process fallback (no root / no ptrace) -------------------------------------------
+# A child python runs the real initialization.initialize() with recorders substituted for
+# os.chroot/chdir/setgroups/set*id, SSLContext.load_cert_chain and socket bind/listen.  The
+# recorders keep a model of the credentials instead of changing them.  Same ordering oracle;
+# "reached the accept loop" means initialize() returned the server.
+INPROC_CHILD = r"""
+import errno, json, os, socket, ssl, sys
+conf, fault, outpath = sys.argv[1], sys.argv[2], sys.argv[3]
+events = []
+st = {"uid": [os.getuid(), os.geteuid(), os.geteuid()], "gid": [os.getgid(), os.getegid(), os.getegid()],
+      "groups": sorted(os.getgroups()), "root": None, "cwd": os.getcwd(), "chdir_after_chroot": False}
+fired = [False]
+
+def rec(kind, text, fn=None):
+    def wrapper(*a, **kw):
+        ev = {"kind": kind, "text": "%s%r" % (text, a), "ok": True, "injected": False}
+        events.append(ev)
+        if fault == text and not fired[0]:
+            fired[0] = True
+            ev["ok"] = False
+            ev["injected"] = True
+            ev["text"] += " = -1 EPERM (INJECTED)"
+            raise PermissionError(errno.EPERM, "Operation not permitted (injected)")
+        if fn is not None:
+            fn(*a, **kw)
+    return wrapper
+
+def _set3(which, r, e, s=None):
+    cur = st[which]
+    old_r = cur[0]
+    if r != -1: cur[0] = r
+    if e != -1: cur[1] = e
+    if s is not None:
+        if s != -1: cur[2] = s
+    elif r != -1 or (e != -1 and e != old_r):
+        cur[2] = cur[1]
+
+def m_chroot(path):
+    st["root"] = os.path.realpath(path)
+    st["chdir_after_chroot"] = False
+def m_chdir(path):
+    st["chdir_after_chroot"] = st["root"] is not None
+    if st["root"] is not None and os.path.isabs(path):
+        st["cwd"] = os.path.normpath(st["root"] + "/" + path)
+    else:
+        st["cwd"] = os.path.normpath(os.path.join(st["cwd"], path))
+
+os.chroot = rec("chroot", "chroot", m_chroot)
+os.chdir = rec("chdir", "chdir", m_chdir)
+os.fchdir = rec("chdir", "fchdir", lambda fd: st.__setitem__("cwd", "(fd)"))
+os.setgroups = rec("groups", "setgroups", lambda g: st.__setitem__("groups", sorted(g)))
+os.setregid = rec("gid", "setregid", lambda r, e: _set3("gid", r, e))
+os.setresgid = rec("gid", "setresgid", lambda r, e, s: _set3("gid", r, e, s))
+os.setgid = rec("gid", "setgid", lambda g: _set3("gid", g, g, g))
+os.setegid = rec("gid", "setegid", lambda g: _set3("gid", -1, g, st["gid"][2]))
+os.setreuid = rec("uid", "setreuid", lambda r, e: _set3("uid", r, e))
+os.setresuid = rec("uid", "setresuid", lambda r, e, s: _set3("uid", r, e, s))
+os.setuid = rec("uid", "setuid", lambda u: _set3("uid", u, u, u))
+os.seteuid = rec("uid", "seteuid", lambda u: _set3("uid", -1, u, st["uid"][2]))
+
+_load = ssl.SSLContext.load_cert_chain
+def load_cert_chain(self, certfile, keyfile=None, password=None):
+    events.append({"kind": "cert", "text": "load_cert_chain cert=%s" % certfile, "ok": True, "injected": False})
+    events.append({"kind": "key", "text": "load_cert_chain key=%s" % keyfile, "ok": True, "injected": False})
+    try:
+        return _load(self, certfile, keyfile, password)
+    except BaseException:
+        events[-1]["ok"] = events[-2]["ok"] = False
+        raise
+ssl.SSLContext.load_cert_chain = load_cert_chain
+_bind, _listen = socket.socket.bind, socket.socket.listen
+def bind(self, addr):
+    events.append({"kind": "bind", "text": "bind%r" % (addr,), "ok": True, "injected": False})
+    try:
+        return _bind(self, addr)
+    except BaseException:
+        events[-1]["ok"] = False
+        raise
+def listen(self, *a):
+    events.append({"kind": "listen", "text": "listen%r" % (a,), "ok": True, "injected": False})
+    return _listen(self, *a)
+socket.socket.bind = bind
+socket.socket.listen = listen
+
+result = {"returned": False, "exception": None, "cfg_root": None}
+def dump():
+    result["events"] = events
+    result["state"] = st
+    with open(outpath, "w") as fp:
+        json.dump(result, fp)
+try:
+    from pygopherd import initialization
+    try:
+        server = initialization.initialize(conf)
+        result["returned"] = True
+        result["cfg_root"] = server.config.get("pygopherd", "root")
+        server.server_close()
+    except SystemExit as e:
+        result["exception"] = "SystemExit(%r)" % (e.code,)
+    except BaseException as e:
+        result["exception"] = "%s: %s" % (type(e).__name__, e)
+finally:
+    dump()
+sys.exit(0 if result["returned"] else 1)
+"""
+
+
+def execute_inproc(env: Env, r: Run, tag: str, token: str) -> Obs:
+    import json
+    import subprocess
+
+    o = Obs()
+    t0 = time.monotonic()
+    wd = env.scratch.sub(tag)
+    root = os.path.join(wd, "root")
+    make_root(root, token)
+    over: typing.Dict[str, typing.Optional[str]] = {"usechroot": "yes" if r.chroot else "no"}
+    if r.uid:
+        over["setuid"] = "nosuchuser_vf" if r.fault == "unknown-user" else USER
+    if r.gid:
+        over["setgid"] = "nosuchgroup_vf" if r.fault == "unknown-group" else GROUP
+    port = spdriver.reserve_port()
+    cfg = spdriver.build_config(root, port, r.servertype, r.tls, over,
+                                pidfile=os.path.join(wd, "srv.pid"))
+    conf = os.path.join(wd, "srv.conf")
+    with open(conf, "w") as fp:
+        cfg.write(fp)
+    outpath = os.path.join(wd, "inproc.json")
+    envv = dict(os.environ, PYTHONPATH=REPO, PYTHONDONTWRITEBYTECODE="1")
+    o.root_cfg = root  # type: ignore[attr-defined]
+    o.port = port      # type: ignore[attr-defined]
+    try:
+        p = subprocess.run([spdriver.PYTHON, "-c", INPROC_CHILD, conf, r.fault or "-", outpath],
+                           cwd=env.start_cwd, env=envv, capture_output=True, timeout=60,
+                           start_new_session=True, stdin=subprocess.DEVNULL)
+        o.exited = p.returncode
+        o.stdout = p.stdout.decode("utf-8", "backslashreplace")
+        o.stderr = p.stderr.decode("utf-8", "backslashreplace")
+        with open(outpath) as fp:
+            res = json.load(fp)
+        o.events = [Ev(e["kind"], e["text"], e["ok"], e["injected"]) for e in res["events"]]
+        o.ready = bool(res["returned"])
+        o.virt = res  # type: ignore[attr-defined]
+        if o.ready:
+            o.events.append(Ev("wait", "initialize() returned the server", True, False))
+        for e in o.events:
+            o.syscalls[e.text.split("(")[0].split(" ")[0]] = o.syscalls.get(e.text.split("(")[0].split(" ")[0], 0) + 1
+    except subprocess.TimeoutExpired:
+        o.timed_out = True
+    except Exception as e:
+        o.harness_error = "%s: %s" % (type(e).__name__, e)
+    o.addr_in_use = "Address already in use" in (o.stdout + o.stderr)
+    o.wall = time.monotonic() - t0
+    return o
+
+
+def inproc_end_state(env: Env, r: Run, o: Obs) -> None:
+    """Translate the child's credential/root model into the fields judge() reads."""
+    st = o.virt["state"]  # type: ignore[attr-defined]
+    u, g = st["uid"], st["gid"]
+    o.status = {"Uid": [str(x) for x in u + [u[1]]], "Gid": [str(x) for x in g + [g[1]]],
+                "Groups": [str(x) for x in st["groups"]]}
+    o.root_link = st["root"] or env.my_root
+    o.cwd_link = st["cwd"]
 
 
 # ---- main -----------------------------------------------------------------------------------
@@ -544,12 +724,19 @@ def main() -> int:
         "the server is started with a working directory outside the document root",
         "repo under test: %s" % REPO,
     ]
-    if os.geteuid() != 0:
-        chk.note_inconclusive("not running as root: cannot chroot/setuid the real server")
+    mode = os.environ.get("VF_C19_MODE") or ("strace" if (os.geteuid() == 0 and ok) else "inproc")
+    if mode == "strace" and not (os.geteuid() == 0 and ok):
+        chk.note_inconclusive("strace mode requested but unusable: root=%s strace=%s" % (os.geteuid() == 0, why))
         return chk.finish(rule, assumptions)
-    if not ok:
-        chk.note_inconclusive("strace unusable (%s); in-process fallback not implemented" % why)
-        return chk.finish(rule, assumptions)
+    if mode != "strace":
+        mode = "inproc"
+        rule = ("FALLBACK (no root/ptrace: %s): one case = (option combination, injected fault, server "
+                "type, TLS) for which the real initialization.initialize() ran in a child process with "
+                "recorders substituted for os.chroot/chdir/setgroups/set*id, load_cert_chain, bind/listen"
+                % (why if not ok else "euid=%d" % os.geteuid()))
+        assumptions[0] = ("in-process fallback: privileged calls are recorded and modelled, not executed; "
+                          "no /proc end state, no requests")
+        chk.count("mode:inproc-fallback")
     for p in problems:
         chk.note_inconclusive("oracle self-test: " + p)
 
@@ -575,7 +762,12 @@ def main() -> int:
             token = "tok%d-%06x" % (i, chk.subrng("token", i).getrandbits(24))
             last = None
             for attempt in range(2):
-                o = execute(env, r, "run%03d-%d" % (i, attempt), token)
+                if mode == "strace":
+                    o = execute(env, r, "run%03d-%d" % (i, attempt), token)
+                else:
+                    o = execute_inproc(env, r, "run%03d-%d" % (i, attempt), token)
+                    if o.ready and r.fault is None and hasattr(o, "virt"):
+                        inproc_end_state(env, r, o)
                 wit, inc = judge(env, r, o, token)
                 last = (r, o, wit, inc, attempt)
                 if wit or not inc:
@@ -622,6 +814,9 @@ def main() -> int:
             if o.connect_after is False:
                 chk.count("connect_refused_after_abort")
         decided = bool(o.events) and not (inc and not wit)
+        if r.fault in OPTIONAL and not any(e.injected for e in o.events):
+            decided = False
+            chk.count("optional_fault_not_applicable")
         full = r.chroot and r.uid and r.gid
         want = full and (r.fault is None or r.fault == "setregid") and len(sample_traces) < 4
         chk.case(r.sig() if decided else None,
@@ -635,6 +830,7 @@ def main() -> int:
 
     extra = {
         "planned_runs": len(runs),
+        "mode": mode,
         "strace": "strace -f -e trace=%s [-e inject=<call>:error=EPERM:when=1]" % ",".join(TRACE_CALLS),
         "fault_run_exit_codes": exit_codes,
         "sample_traces": sample_traces,
@@ -642,7 +838,7 @@ def main() -> int:
                            "mean": round(sum(walls) / len(walls), 2) if walls else None},
         "oracle_selftest": "ok" if not problems else problems,
     }
-    return chk.finish(rule, assumptions, extra, exhaustive=True, min_distinct=len(runs) if not chk.replay_case else 1)
+    return chk.finish(rule, assumptions, extra, exhaustive=True, min_distinct=len([r for r in runs if r.fault not in OPTIONAL]) if not chk.replay_case else 1)
 
 
 if __name__ == "__main__":
